@@ -21,6 +21,7 @@ import datetime
 import json
 import os
 
+from harness import keys as hk
 from harness import vcore, vscen, vskel
 from vlib import core
 
@@ -234,6 +235,9 @@ def run(ctx):
         ctx.violation("layout gate: %s [tags %s]" % ("; ".join(r["oracle"])[:500], ",".join(r["scen"]["tags"])[:150]),
                       vcore.replay_file(r))
 
+    hist_n, hist_bad = history_stream(ctx)
+    for pr in hist_bad[:3]:
+        ctx.violation("layout gate (history of the process): " + pr, {"history_stream": True, "what": pr})
     # the command-line front end's key set
     cli = cli_stream(ctx)
     cli_bad = [(r, cli_judge(r)) for r in cli if cli_judge(r)]
@@ -277,6 +281,7 @@ def run(ctx):
                                            "sweep case; distinct = different (root file, link dir, keys, clock)",
                                    "model_gap": {"count": gaps},
                                    "command_line_key_sets": cli_cov,
+                                   "process_history": {"cases": hist_n, "violations": len(hist_bad)},
                                    "single_leaf_sweep": sweep_stats, "oracle_violations": len(bad), "root_format": fmt,
                                    "expiry_boundary_outcomes": dict(sorted(bnd.items())),
                                    "oracle": "on the implementation's verdict alone: every edit of a leaf of the serialised layout "
@@ -326,6 +331,112 @@ def cli_judge(rec):
     return None
 
 
+def history_stream(ctx):
+    """acceptance depends on THIS call's layout content and THIS call's keys only, whatever the process did before:
+    (a) one in-memory layout object verified, then edited, then verified again; (b) a key id under which other key
+    material was used earlier in the process.  Expectations by construction.  -> (cases, problems)"""
+    import shutil
+    import tempfile
+    import in_toto.verifylib as vl
+    from in_toto.models.layout import Inspection, Layout
+    from in_toto.models.metadata import Metadata
+    k1, k2, k3 = hk.sslib_key("ed25519", 0), hk.sslib_key("ed25519", 1), hk.sslib_key("rsa", 0)
+    problems, n = [], 0
+    wd = tempfile.mkdtemp(prefix="c01hist", dir=ctx.work)
+    home = os.getcwd()
+    os.chdir(wd)
+
+    def verdict(md, keys):
+        try:
+            vl.in_toto_verify(md, keys, link_dir_path=wd)
+            return "accept"
+        except Exception as e:  # noqa
+            return type(e).__name__
+    try:
+        for dsse in (False, True):
+            fmt = "dsse" if dsse else "metablock"
+            for first in ("passing", "expired"):
+                # (a) verify, edit the signed content in memory, verify the same object again
+                lay = Layout(steps=[], inspect=[], keys={}, expires="2035-01-01T00:00:00Z" if first == "passing" else "2020-01-01T00:00:00Z")
+                md = vscen.make_md(lay, dsse)
+                md.create_signature(k1.signer)
+                path = os.path.join(wd, "h.layout")
+                md.dump(path)
+                obj = Metadata.load(path)
+                keys = {k1.keyid: copy.deepcopy(k1.pub)}
+                v1 = verdict(obj, keys)
+                n += 1
+                if v1 != ("accept" if first == "passing" else "LayoutExpiredError"):
+                    problems.append("%s: first verification of a %s layout gives %s" % (fmt, first, v1))
+                if not dsse:
+                    # the evaluated content of a traditional layout is the object's signed part
+                    obj.signed.expires = "2036-01-01T00:00:00Z"
+                    obj.signed.inspect = [Inspection(name="injected", run=["sh", "-c", "touch injected-ran"])]
+                    v2 = verdict(obj, keys)
+                    n += 1
+                    if v2 == "accept" or os.path.exists(os.path.join(wd, "injected-ran")):
+                        problems.append("%s: a layout object edited in memory AFTER an earlier (%s) verification is accepted on the "
+                                        "second call although its signature covers the unedited content%s" % (
+                                            fmt, first, " and the injected inspection ran" if os.path.exists(os.path.join(wd, "injected-ran")) else ""))
+                    if os.path.exists(os.path.join(wd, "injected-ran")):
+                        os.remove(os.path.join(wd, "injected-ran"))
+                    # a fresh load of the untouched file still behaves as the first time
+                    v3 = verdict(Metadata.load(path), keys)
+                    n += 1
+                    if v3 != v1:
+                        problems.append("%s: the same file verifies as %s first and as %s after other calls" % (fmt, v1, v3))
+            # (b) key id X was used with other key material earlier in this process
+            for other in (k2, k3):
+                # a key id this process has never seen (key ids are free-form labels of the key store)
+                X = "".join(ctx.rng.choice("0123456789abcdef") for _ in range(64))
+                alias_pub = copy.deepcopy(other.pub)
+                alias_pub["keyid"] = X                     # the other key filed under the owner's key id (key ids are free-form)
+                lay0 = Layout(steps=[], inspect=[], keys={}, expires="2035-01-01T00:00:00Z", readme="unrelated project")
+                md0 = vscen.make_md(lay0, dsse)
+                sig = md0.create_signature(other.signer)
+                # relabel the signature with X so that it is found for the alias
+                fj0 = vscen.to_file(md0)
+                for sd in fj0["signatures"]:
+                    sd["keyid"] = X
+                p0 = os.path.join(wd, "unrelated.layout")
+                json.dump(fj0, open(p0, "w"))
+                v0 = verdict(Metadata.load(p0), {X: alias_pub})
+                n += 1
+                # now the forged layout: signed by the OTHER key under the label X, verified with the owner's genuine key X
+                forged = vscen.make_md(Layout(steps=[], inspect=[], keys={}, expires="2035-01-01T00:00:00Z", readme="forged"), dsse)
+                forged.create_signature(other.signer)
+                fj = vscen.to_file(forged)
+                for sd in fj["signatures"]:
+                    sd["keyid"] = X
+                p1 = os.path.join(wd, "forged.layout")
+                json.dump(fj, open(p1, "w"))
+                owner_pub = copy.deepcopy(k1.pub)
+                owner_pub["keyid"] = X
+                v = verdict(Metadata.load(p1), {X: owner_pub})
+                n += 1
+                # control: the owner's own signature under that label is accepted
+                good = vscen.make_md(Layout(steps=[], inspect=[], keys={}, expires="2035-01-01T00:00:00Z", readme="genuine"), dsse)
+                good.create_signature(k1.signer)
+                fjg = vscen.to_file(good)
+                for sd in fjg["signatures"]:
+                    sd["keyid"] = X
+                p2 = os.path.join(wd, "genuine.layout")
+                json.dump(fjg, open(p2, "w"))
+                vg = verdict(Metadata.load(p2), {X: copy.deepcopy(owner_pub)})
+                n += 1
+                if vg != "accept":
+                    problems.append("%s: the owner's genuine layout is rejected (%s) after its key id had been used with other key "
+                                    "material earlier in the process" % (fmt, vg))
+                if v == "accept":
+                    problems.append("%s: a layout signed by another (%s) key under the owner's key id is accepted with the owner's "
+                                    "genuine key after that key id had been used with the other key's material earlier in the "
+                                    "process (earlier call: %s)" % (fmt, other.kind if hasattr(other, "kind") else "?", v0))
+    finally:
+        os.chdir(home)
+        shutil.rmtree(wd, ignore_errors=True)
+    return n, problems
+
+
 def cli_stream(ctx):
     from harness import c18lib as L
     ks = L.KeyStore(ctx.work)
@@ -353,6 +464,15 @@ def _oracle(r, scen, outs, wd):
 
 
 def replay(ctx, obj):
+    if obj.get("replay", {}).get("history_stream"):
+        _, bad = history_stream(ctx)
+        for pr in bad:
+            print("  -> " + pr)
+        if bad:
+            print("VIOLATION property=C01 replay=%s" % obj.get("rerun", "").split()[-1])
+            return 1
+        print("agree")
+        return 0
     if "cli_scenario" in obj.get("replay", {}):
         from harness import c18lib as L
         ks = L.KeyStore(ctx.work)
